@@ -85,6 +85,33 @@ Definition flow_missing (a : assets) (s : session) (wi : nat) : Prop :=
   | None => True
   end.
 
+(* ... or cannot be used to continue the run: missing, or a voice flow in a session that has no call
+   (Engine.run_flow_unusable = session.go: `waitingRun.Flow() == nil`, then `!s.canContinue(waitingRun)`) *)
+Definition flow_unusable (a : assets) (s : session) (wi : nat) : Prop := run_flow_unusable a s wi = true.
+
+Definition voice_without_call (a : assets) (s : session) (wi : nat) : Prop :=
+  exists rn f, get_run s wi = Some rn /\ get_flow a (r_flow rn) = Some f /\ f_type f = 2 /\ s_type s <> 2.
+
+Lemma flow_unusable_iff : forall a s wi, flow_unusable a s wi <-> flow_missing a s wi \/ voice_without_call a s wi.
+Proof.
+  intros a s wi. unfold flow_unusable, run_flow_unusable, flow_missing, voice_without_call.
+  destruct (get_run s wi) as [rn|] eqn:Er; [|split; auto].
+  destruct (get_flow a (r_flow rn)) as [f|] eqn:Ef.
+  - split.
+    + intros H. apply andb_true_iff in H. destruct H as [H1 H2]. apply N.eqb_eq in H1. apply negb_true_iff, N.eqb_neq in H2.
+      right. exists rn, f. repeat split; auto.
+    + intros [C|(rn' & f' & E1 & E2 & H1 & H2)]; [discriminate|]. inversion E1; subst. rewrite Ef in E2. inversion E2; subst.
+      apply andb_true_iff. split; [apply N.eqb_eq; auto|apply negb_true_iff, N.eqb_neq; auto].
+  - split; auto.
+Qed.
+
+Lemma flow_usable_inv : forall a s wi, run_flow_unusable a s wi = false ->
+  exists rn f, get_run s wi = Some rn /\ get_flow a (r_flow rn) = Some f.
+Proof.
+  intros a s wi. unfold run_flow_unusable. destruct (get_run s wi) as [rn|]; [|discriminate].
+  destruct (get_flow a (r_flow rn)) as [f|] eqn:Ef; [|discriminate]. intros _. exists rn, f. split; [reflexivity|exact Ef].
+Qed.
+
 Definition resume_limit_reached (a : assets) (s : session) : Prop :=
   (Z.of_nat (count_waits s) >= max_resumes (a_opts a))%Z.
 
@@ -121,7 +148,7 @@ Lemma reject_iff : forall a s r tmo code,
   (code = 101 /\ s_status s <> SWaiting) \/
   (code = 102 /\ s_status s = SWaiting /\ no_waiting_run s) \/
   (code = 103 /\ s_status s = SWaiting /\
-     exists wi pos n w, waiting_run s = Some wi /\ ~ flow_missing a s wi /\ ~ resume_limit_reached a s /\
+     exists wi pos n w, waiting_run s = Some wi /\ ~ flow_unusable a s wi /\ ~ resume_limit_reached a s /\
                         resume_site a s wi (Some (pos, n, w)) /\ accepts w r = false).
 Proof.
   intros a s r tmo code. unfold resume_session.
@@ -137,11 +164,8 @@ Proof.
       - intros [[_ C]|[(-> & _)|(_ & _ & wi & pos & n & w & C & _)]]; auto; congruence. }
   assert (Hnw : ~ no_waiting_run s).
   { intros C. apply (waiting_run_from_none (s_runs s) 0) in C. unfold waiting_run in Ewr. congruence. }
-  set (fm := match get_run s wi with
-             | Some rn => match get_flow a (r_flow rn) with None => true | Some _ => false end
-             | None => true end).
-  assert (Hfm : fm = true <-> flow_missing a s wi).
-  { unfold fm, flow_missing. destruct (get_run s wi); [destruct (get_flow a (r_flow r0))|]; split; intros; auto; congruence. }
+  set (fm := run_flow_unusable a s wi).
+  assert (Hfm : fm = true <-> flow_unusable a s wi) by (unfold fm, flow_unusable; tauto).
   destruct fm eqn:Efm.
   { split; [discriminate|].
     intros [[_ C]|[(_ & _ & C)|(_ & _ & wi' & pos & n & w & E1 & C & _)]]; try contradiction.
@@ -196,7 +220,7 @@ Qed.
 (* ---- a resume that cannot proceed ----------------------------------------------------------------- *)
 
 Definition impossible (a : assets) (s : session) (wi : nat) : Prop :=
-  flow_missing a s wi \/ resume_limit_reached a s \/ resume_site a s wi None.
+  flow_unusable a s wi \/ resume_limit_reached a s \/ resume_site a s wi None.
 
 Definition failure_event (c : fail_code) : event := {| ev_step := None; ev_kind := EFailure c |}.
 
@@ -245,14 +269,12 @@ Lemma impossible_fails : forall a s r tmo wi,
   exists x', resume_session a s r tmo = Resumed (ROk x') /\ ended_as_failed s wi x'.
 Proof.
   intros a s r tmo wi Hst Hwr Himp. unfold resume_session. rewrite Hst, Hwr; simpl.
-  destruct (get_run s wi) as [rn|] eqn:Egr.
-  2:{ eexists; split; [reflexivity|apply fail_session_ended]. }
-  destruct (get_flow a (r_flow rn)) eqn:Egf.
-  2:{ eexists; split; [reflexivity|apply fail_session_ended]. }
+  destruct (run_flow_unusable a s wi) eqn:Efu.
+  { eexists; split; [reflexivity|apply fail_session_ended]. }
   destruct (Z.of_nat (count_waits s) >=? max_resumes (a_opts a))%Z eqn:Ecw.
   { eexists; split; [reflexivity|apply fail_session_ended]. }
   destruct Himp as [H|[H|H]].
-  - unfold flow_missing in H. rewrite Egr in H. congruence.
+  - unfold flow_unusable in H. congruence.
   - unfold resume_limit_reached in H. lia.
   - inversion H as [Epl|pos n Epl Hwo|]; rewrite Epl.
     + eexists; split; [reflexivity|apply fail_session_ended].
@@ -263,7 +285,7 @@ Qed.
 
 (* and conversely: a resume of a waiting session that neither is rejected nor is impossible proceeds *)
 Lemma resume_proceeds : forall a s r tmo wi pos n w,
-  s_status s = SWaiting -> waiting_run s = Some wi -> ~ flow_missing a s wi -> ~ resume_limit_reached a s ->
+  s_status s = SWaiting -> waiting_run s = Some wi -> ~ flow_unusable a s wi -> ~ resume_limit_reached a s ->
   resume_site a s wi (Some (pos, n, w)) -> accepts w r = true ->
   let x := apply_resume (with_session {| session_ := s; sprint_ := empty_sprint |} (fun s => set_status s SActive)) wi (Some (wi, pos)) r in
   resume_session a s r tmo =
@@ -278,8 +300,7 @@ Lemma resume_proceeds : forall a s r tmo wi pos n w,
     end.
 Proof.
   intros a s r tmo wi pos n w Hst Hwr Hfm Hlim Hsite Hacc. unfold resume_session. rewrite Hst, Hwr; simpl.
-  unfold flow_missing in Hfm. destruct (get_run s wi) as [rn|] eqn:Egr; [|exfalso; apply Hfm; exact I].
-  destruct (get_flow a (r_flow rn)) eqn:Egf; [|exfalso; apply Hfm; reflexivity].
+  unfold flow_unusable in Hfm. destruct (run_flow_unusable a s wi) eqn:Efu; [exfalso; apply Hfm; reflexivity|].
   destruct (Z.of_nat (count_waits s) >=? max_resumes (a_opts a))%Z eqn:Ecw.
   { exfalso; apply Hlim; unfold resume_limit_reached; lia. }
   inversion Hsite as [| |pos' n' w' Epl Hwo]; subst. rewrite Epl.
